@@ -15,7 +15,15 @@ RULE = ("real nsqd daemons (in-process; max-msg-size 64, max-body-size 320, max-
         "through GET /stats?format=json before and after at the exact quiescence condition of the topic pumps; "
         "(names) every endpoint that takes a topic or channel, with names of exactly 1, 63, 64 (valid) and 65 (invalid) bytes and 53 / 54 (valid) / 55 "
         "(invalid) bytes + #ephemeral, as the topic and as the channel, on existing and on new objects, plus /pub, /pub?defer, text and binary /mpub "
-        "under each of those names with their TCP twins (tags topic-len= / channel-len=); (config) GET / PUT /config/:opt with every log level in "
+        "under each of those names with their TCP twins (tags topic-len= / channel-len=); "
+        "(words) the words the API is made of (pause unpause empty delete create topic channel binary defer format json pub mpub stats true) used as "
+        "user-chosen strings: every admin endpoint x every path word as the topic name, as the channel name and in an argument the endpoint does not "
+        "read (word as key, inside a longer key, as value, bare key), against a state where the endpoint's effect and its opposite's are both visible "
+        "in /stats (pause meets an un-paused object, unpause a paused one, empty a non-empty one) and sibling topics / channels named after route "
+        "words must stay untouched; parameters of other endpoints (channel= on /topic/*, binary= defer= format= on admin endpoints, binary= channel= "
+        "format= on /pub, defer= on /mpub, x_topic= x_channel= x_binary= x_defer=); every publish endpoint under each word as topic and with each word "
+        "as extra argument, with TCP twins; /stats /ping /info /config/:opt /debug/* with the words (status); the random generators also draw names "
+        "and junk arguments from the words (tags routeword-in-*, routeword=, routeword:<position>:<route>:<status>); (config) GET / PUT /config/:opt with every log level in "
         "every case, refused levels, JSON and non-JSON address lists, empty / max-msg-size / oversize values, unknown and read-only options, "
         "/debug/setblockrate with numeric and non-numeric rates; "
         "(pub) /pub (bodies 0,1,2,17,62..66,100,321 bytes; defer strings at every boundary incl. the F1 witnesses, signs, junk, 1-22 random digits), "
